@@ -29,6 +29,7 @@ func emitRouterCode(repo string) (string, error) {
 			"(" + rt + "Leaf).Handler": "Lib.Leaf_Handler",
 			"(" + rt + "Leaf).Route":   "Lib.Leaf_Route",
 			"(" + rt + "Tree).Match":   "matchTree",
+			"(" + rt + "Leaf).URLPath": "Lib.Leaf_URLPath",
 		},
 		libFields: map[string]string{
 			"net/http.Request.Method": "Lib.Request_Method",
